@@ -22,7 +22,7 @@ MAP = {
     "src/icmpv6.cpp": ["C01", "C02", "C03", "C04", "C05", "C14"],
     "src/icmp_extension.cpp": ["C01", "C02", "C03"],
     "src/ethernetII.cpp": ["C01", "C02", "C03", "C05", "C14"],
-    "src/dot1q.cpp": ["C01", "C02", "C03", "C05"],
+    "src/dot1q.cpp": ["C01", "C02", "C03", "C05", "C14"],
     "src/llc.cpp": ["C01", "C02", "C03", "C04"],
     "src/snap.cpp": ["C01", "C03", "C05"],
     "src/pppoe.cpp": ["C01", "C02", "C03", "C04"],
